@@ -31,9 +31,18 @@ class Branching(Exception):
 
 
 def single_return(outs, fi):
+    """The one result of a kernel: no path refuses, and all paths (an implementation may branch, e.g. around a memo table) return
+    the same normal form, unit and dtype."""
     rs = returns(outs)
-    if len(rs) != 1 or len(outs) != 1:
+    if not rs or len(rs) != len(outs):
         raise Branching(fi, outs)
+    first = rs[0].value
+    for o in rs[1:]:
+        v = o.value
+        same = isinstance(v, SVar) and isinstance(first, SVar) and v.unit == first.unit and v.dtype == first.dtype and \
+            ((v.term is None and first.term is None) or (v.term is not None and first.term is not None and eq_term(v.term, first.term)))
+        if not same:
+            raise Branching(fi, outs)
     return rs[0]
 
 
